@@ -1,11 +1,17 @@
 /-!
 # Tab-separated record files: BED and GFF/GTF (C13) — model of the format, writer and reader
 
-Bytes are `Nat`s, a file is a `List Nat`.  The model is the line format **without quoting**: records are lines
-terminated by LF, fields are separated by TAB, empty lines and lines starting with `#` are skipped.  (`csv`'s
-quoting is outside the model: the correspondence check keeps `"`, TAB, CR, LF out of the fields and `#` from the
-start of the first field; this domain restriction is recorded in `meta/C13.json`.)
+Bytes are `Nat`s, a file is a `List Nat`.  The record layer is `csv` as `bed.rs` / `gff.rs` configure it
+(delimiter TAB, comment byte `#` on the reader only, no headers, default quoting = `"` with doubling, default
+terminator = CR, LF or CRLF, writer `QuoteStyle::Necessary`, reader not flexible, input followed by one LF):
 
+* writer (`quoteField`, `recordBody`): a field is put in quotes exactly when it contains TAB, `"`, CR or LF
+  (csv-core `requires_quotes`; the writers do **not** configure a comment byte, so `#` never forces quotes); inside
+  quotes every `"` is doubled; a record that would otherwise be written as zero bytes is written as `""`.
+* reader (`step` / `run`): the NFA of `csv-core` (`Reader::transition_nfa`, `transition_final_nfa`) with the ε-moves
+  collapsed: a field is quoted only if its first byte is `"`; inside quotes `""` is one quote and a single `"` ends the
+  quoted part (bytes after it up to the next TAB / line end are appended literally); quotes elsewhere are literal;
+  CR and LF both end a record, empty records are skipped; `#` at the start of a record opens a comment up to LF.
 * `BedRec`, `bedLine`, `readBed` — chrom, start, end + k auxiliary columns; a file has one column count
   (the count of its first record; a line with another count is an error — `csv`'s non-flexible reader).
 * `GffRec`, `gffLine`, `readGff` — nine columns; phase `.`/0/1/2; the attribute column per dialect:
@@ -13,7 +19,7 @@ start of the first field; this domain restriction is recorded in `meta/C13.json`
   regular expression ` *(?P<key>[^dt\t]+)d(?P<value>[^dt\t]+)t?` of `gff.rs` written out as a scanner
   (`matchAt`/`scan`: leftmost match, greedy runs, retry one symbol further on failure), followed by the split on the
   value delimiter and the trimming of quote characters.
-* Outcome of reading one line: `ok r`, `err why` (the property demands an error) or `unspec` (the text does not
+* Outcome of reading one record: `ok r`, `err why` (the property demands an error) or `unspec` (the text does not
   say: `+5`, `0x1f`, `007` as numbers).
 -/
 namespace RbV.Tsv
@@ -22,6 +28,8 @@ def TAB : Nat := 9
 def LF : Nat := 10
 def HASH : Nat := 35
 def SPACE : Nat := 32
+def CR : Nat := 13
+def QUOTE : Nat := 34
 
 /-! ## Splitting and joining -/
 
@@ -84,12 +92,104 @@ inductive Res (α : Type) where
   | unspec
   deriving Repr, DecidableEq
 
-/-- the data lines of a file: split at LF, drop empty lines and comment lines -/
+/-! ## The csv layer: quoting writer and state-machine reader -/
+
+/-- record terminators of the reader (`Terminator::CRLF`: CR, LF or CRLF) -/
+def isTerm (c : Nat) : Bool := c == LF || c == CR
+
+/-- bytes that force quotes around a field (`csv-core` `WriterBuilder::build`, `requires_quotes`): the delimiter,
+the quote, CR and LF.  The writers of `bed.rs` / `gff.rs` set no comment byte, so `#` is not among them. -/
+def needsQuote (c : Nat) : Bool := c == TAB || c == QUOTE || c == CR || c == LF
+
+/-- `csv_core::writer::quote` with `double_quote = true` -/
+def escapeQuotes : List Nat → List Nat
+  | [] => []
+  | c :: r => if c = QUOTE then QUOTE :: QUOTE :: escapeQuotes r else c :: escapeQuotes r
+
+/-- one field as `QuoteStyle::Necessary` writes it -/
+def quoteField (f : List Nat) : List Nat :=
+  if f.any needsQuote then QUOTE :: (escapeQuotes f ++ [QUOTE]) else f
+
+/-- one record without its terminator; `""` when nothing else was written (`Writer::terminator`,
+`record_bytes == 0`: a sole empty field, or no field at all) -/
+def recordBody (fs : List (List Nat)) : List Nat :=
+  let b := join TAB (fs.map quoteField)
+  if b.isEmpty then [QUOTE, QUOTE] else b
+
+/-- the reader would take the written record for a comment: the first field starts with `#` and nothing in it
+forces quotes.  In the BED/GFF line format such a line *is* a comment (`#a` TAB `1` TAB `2`): the record has no
+representation in the format and is outside the property's domain (the round-trip theorems exclude it). -/
+def hashStart : List (List Nat) → Bool
+  | f :: _ => f.head? == some HASH && !f.any needsQuote
+  | [] => false
+
+inductive CsvSt where
+  | startRecord        -- `StartRecord` (also `EndRecord`, `CRLF`: they differ only in discarding a following LF)
+  | startField         -- `StartField` after a delimiter
+  | inField            -- `InField`
+  | inQuoted           -- `InQuotedField`
+  | quoteInQuoted      -- `InDoubleEscapedQuote`: a `"` was seen inside a quoted field
+  | inComment          -- `InComment`
+  deriving Repr, DecidableEq
+
+/-- reader state: automaton state, bytes of the current field, completed fields of the current record -/
+structure Csv where
+  st : CsvSt
+  fld : List Nat
+  flds : List (List Nat)
+  deriving Repr, DecidableEq
+
+def Csv.start : Csv := ⟨.startRecord, [], []⟩
+
+/-- `StartField` on byte `c` -/
+def stepField (flds : List (List Nat)) (c : Nat) : Csv × Option (List (List Nat)) :=
+  if c = QUOTE then (⟨.inQuoted, [], flds⟩, none)
+  else if c = TAB then (⟨.startField, [], flds ++ [[]]⟩, none)
+  else if isTerm c then (Csv.start, some (flds ++ [[]]))
+  else (⟨.inField, [c], flds⟩, none)
+
+/-- one byte: new state and the record that is complete with this byte, if any -/
+def step (s : Csv) (c : Nat) : Csv × Option (List (List Nat)) :=
+  match s.st with
+  | .startRecord =>
+    if isTerm c then (Csv.start, none)
+    else if c = HASH then (⟨.inComment, [], []⟩, none)
+    else stepField [] c
+  | .startField => stepField s.flds c
+  | .inField =>
+    if c = TAB then (⟨.startField, [], s.flds ++ [s.fld]⟩, none)
+    else if isTerm c then (Csv.start, some (s.flds ++ [s.fld]))
+    else (⟨.inField, s.fld ++ [c], s.flds⟩, none)
+  | .inQuoted =>
+    if c = QUOTE then (⟨.quoteInQuoted, s.fld, s.flds⟩, none)
+    else (⟨.inQuoted, s.fld ++ [c], s.flds⟩, none)
+  | .quoteInQuoted =>
+    if c = QUOTE then (⟨.inQuoted, s.fld ++ [QUOTE], s.flds⟩, none)
+    else if c = TAB then (⟨.startField, [], s.flds ++ [s.fld]⟩, none)
+    else if isTerm c then (Csv.start, some (s.flds ++ [s.fld]))
+    else (⟨.inField, s.fld ++ [c], s.flds⟩, none)
+  | .inComment => if c = LF then (Csv.start, none) else (⟨.inComment, [], []⟩, none)
+
+/-- end of input (`transition_final_nfa`): a record that has begun is delivered -/
+def finish (s : Csv) : List (List (List Nat)) :=
+  match s.st with
+  | .startRecord | .inComment => []
+  | _ => [s.flds ++ [s.fld]]
+
+def run : Csv → List Nat → List (List (List Nat))
+  | s, [] => finish s
+  | s, c :: r => (step s c).2.toList ++ run (step s c).1 r
+
+/-- the records (field lists) of a file as `bed::Reader` / `gff::Reader` hand them to `csv`: the input followed by
+one LF (`reader.chain(b"\n")`) -/
+def rows (bytes : List Nat) : List (List (List Nat)) := run Csv.start (bytes ++ [LF])
+
+/-- the quote-free reading (kept for comparison, see `Lemmas/Tsv.lean`): split at LF, drop empty lines and comment
+lines, split at TAB -/
 def dataLines (bytes : List Nat) : List (List Nat) :=
   (splitOn LF bytes).filter fun l => !(l.isEmpty || l.head? == some HASH)
 
-/-- field lists of the data lines -/
-def rows (bytes : List Nat) : List (List (List Nat)) := (dataLines bytes).map (splitOn TAB)
+def rowsPlain (bytes : List Nat) : List (List (List Nat)) := (dataLines bytes).map (splitOn TAB)
 
 /-- what a file consists of: record lines, comment lines (`#…`) and blank lines, in any order -/
 inductive Item where
@@ -126,7 +226,8 @@ structure BedRec where
 
 def bedFields (r : BedRec) : List (List Nat) := r.chrom :: toDec r.start :: toDec r.stop :: r.aux
 
-def bedLine (r : BedRec) : List Nat := join TAB (bedFields r)
+/-- a written BED record without its line end -/
+def bedLine (r : BedRec) : List Nat := recordBody (bedFields r)
 
 def parseBedFields : List (List Nat) → Res BedRec
   | chrom :: s :: e :: aux =>
@@ -182,7 +283,8 @@ def gffFields (d : Dialect) (r : GffRec) : List (List Nat) :=
   [r.seqname, r.source, r.ftype, toDec r.start, toDec r.stop, r.score, r.strand, phaseStr r.phase,
    writeAttrs d r.attrs]
 
-def gffLine (d : Dialect) (r : GffRec) : List Nat := join TAB (gffFields d r)
+/-- a written GFF record without its line end -/
+def gffLine (d : Dialect) (r : GffRec) : List Nat := recordBody (gffFields d r)
 
 /-- symbols a key or a value may consist of: `[^<delim><term>\t]` -/
 def isKV (d : Dialect) (c : Nat) : Bool := c != d.delim && c != d.term && c != TAB
